@@ -21,6 +21,7 @@ type Entity struct {
 
 	muxGenerator   sync.Mutex
 	muxDescription sync.RWMutex
+	muxAddress     sync.RWMutex
 }
 
 var _ api.EntityInterface = (*Entity)(nil)
@@ -45,6 +46,9 @@ func NewEntity(eType model.EntityTypeType, deviceAddress *model.AddressDeviceTyp
 }
 
 func (r *Entity) Address() *model.EntityAddressType {
+	r.muxAddress.RLock()
+	defer r.muxAddress.RUnlock()
+
 	return r.address
 }
 
